@@ -246,7 +246,6 @@ func lightSolve(query, dir, base string) solveResult {
 func lightSolveAny(query, dir, base string) solveResult {
 	file := filepath.Join(dir, base+".smt2")
 	os.WriteFile(file, []byte(query), 0644)
-	defer os.Remove(file)
 	t0 := time.Now()
 	ctx, cancel := context.WithTimeout(context.Background(), 4*time.Second)
 	defer cancel()
